@@ -3,6 +3,16 @@
 #pragma once
 #include "au/utility/factoring.hh"
 #include "c12_oracle.hh"
+#include "c12_watchdog.hh"
+
+// -DC12_UBCHECK=1 (clang -fsanitize=undefined, recover mode): the runtime calls this hook once per
+// report; check_n attributes a report to the (function, n) being evaluated.
+extern "C" {
+volatile unsigned long c12_ub_reports = 0;
+#ifdef C12_UBCHECK
+void __ubsan_on_report(void) { c12_ub_reports = c12_ub_reports + 1; }
+#endif
+}
 
 // Fallback overload (worst conversion rank) so that the harness still builds if a repair of the tree
 // renames or removes is_perfect_square; -1 means "no such function".
@@ -14,12 +24,37 @@ inline int is_perfect_square(...) { return -1; }
 
 namespace c12 {
 
-inline int au_is_perfect_square(u64 n) { return (int)au::detail::is_perfect_square(n); }
+// (a direct call of the internal helper: a hang here is kind is_perfect_square-hang, which the explorer
+// records but does not judge -- only is_prime / find_prime_factor on the same n are in the statement)
+inline int au_is_perfect_square(u64 n) {
+    return wd_call("is_perfect_square", n, [](u64 x) { return (int)au::detail::is_perfect_square(x); });
+}
+// guarded calls (watchdog: non-termination / traps become V lines, see c12_watchdog.hh)
+inline bool au_is_prime(u64 n) {
+    return wd_call("is_prime", n, [](u64 x) { return (bool)au::detail::is_prime(x); });
+}
+inline u64 au_find_prime_factor(u64 n) {
+    return wd_call("factor", n, [](u64 x) { return (u64)au::detail::find_prime_factor(x); });
+}
+inline bool au_mr2_probably_prime(u64 n) {
+    return wd_call("is_prime", n, [](u64 x) {
+        return au::detail::miller_rabin(2u, x) == au::detail::PrimeResult::PROBABLY_PRIME;
+    });
+}
+inline bool au_lucas_probably_prime(u64 n) {
+    return wd_call("is_prime", n, [](u64 x) {
+        return au::detail::strong_lucas(x) == au::detail::PrimeResult::PROBABLY_PRIME;
+    });
+}
+inline void ub_line(const char *fn, u64 n, const char *fam, unsigned long reports) {
+    std::printf("V {\"kind\":\"ub-report\",\"fn\":\"%s\",\"n\":\"%s\",\"family\":\"%s\","
+                "\"reports\":%lu}\n", fn, u64s(n).c_str(), fam, reports);
+}
 
 struct Tally {
     unsigned long long evals_prime = 0, evals_factor = 0, primes = 0, composites = 0, viol = 0,
-                       skipped_factor_calls = 0, factor_eq_n = 0, factor_lt_n = 0;
-    int shown = 0;
+                       skipped_factor_calls = 0, factor_eq_n = 0, factor_lt_n = 0, ub_reports = 0;
+    int shown = 0, ub_shown = 0;
 };
 
 // constructed: 1 = prime by construction, 0 = composite by construction, -1 = unknown
@@ -31,7 +66,12 @@ inline bool check_n(u64 n, const char *fam, Tally &t, int constructed = -1, bool
                     u64s(n).c_str(), fam, constructed, want);
         return false;
     }
-    const bool got = au::detail::is_prime(n);
+    const unsigned long ub0 = c12_ub_reports;
+    const bool got = au_is_prime(n);
+    if (c12_ub_reports != ub0) {
+        t.ub_reports += c12_ub_reports - ub0;
+        if (t.ub_shown++ < 6) ub_line("is_prime", n, fam, c12_ub_reports - ub0);
+    }
     ++t.evals_prime;
     want ? ++t.primes : ++t.composites;
     bool bad = false;
@@ -50,7 +90,12 @@ inline bool check_n(u64 n, const char *fam, Tally &t, int constructed = -1, bool
         if (want && !got) {
             ++t.skipped_factor_calls;  // Pollard rho on a prime would (practically) never return
         } else {
-            const u64 f = au::detail::find_prime_factor(n);
+            const unsigned long ub1 = c12_ub_reports;
+            const u64 f = au_find_prime_factor(n);
+            if (c12_ub_reports != ub1) {
+                t.ub_reports += c12_ub_reports - ub1;
+                if (t.ub_shown++ < 6) ub_line("find_prime_factor", n, fam, c12_ub_reports - ub1);
+            }
             ++t.evals_factor;
             (f == n) ? ++t.factor_eq_n : ++t.factor_lt_n;
             const bool ok = f > 1 && n % f == 0 && is_prime_mr12(f);
@@ -67,12 +112,23 @@ inline bool check_n(u64 n, const char *fam, Tally &t, int constructed = -1, bool
     return bad;
 }
 
+// UB build only: prove that the report hook is live (one deliberate signed overflow), then reset.
+inline void ub_hook_selftest() {
+#ifdef C12_UBCHECK
+    const unsigned long ub0 = c12_ub_reports;
+    volatile int x = 2147483647;
+    x = x + 1;
+    std::printf("H {\"hook_ok\":%d}\n", (int)(c12_ub_reports == ub0 + 1));
+    c12_ub_reports = 0;
+#endif
+}
+
 inline void print_tally(const char *fam, const Tally &t, const std::string &extra = "") {
     std::printf("S {\"family\":\"%s\",\"evals_prime\":%llu,\"evals_factor\":%llu,\"primes\":%llu,"
                 "\"composites\":%llu,\"viol\":%llu,\"skipped_factor_calls\":%llu,\"factor_eq_n\":%llu,"
-                "\"factor_lt_n\":%llu%s}\n",
+                "\"factor_lt_n\":%llu,\"ub_reports\":%llu%s}\n",
                 fam, t.evals_prime, t.evals_factor, t.primes, t.composites, t.viol,
-                t.skipped_factor_calls, t.factor_eq_n, t.factor_lt_n, extra.c_str());
+                t.skipped_factor_calls, t.factor_eq_n, t.factor_lt_n, t.ub_reports, extra.c_str());
 }
 
 }  // namespace c12
